@@ -5,7 +5,7 @@
  3. combo tables 6 / 4 / 12
  4. HandRange::from_str: spaces removed, split on ',', expansions inserted into one map in token order
 Not decided: the end-to-end relation string -> combo set over all token lists."""
-from sa import idioms as I, loops as L, prov as P, regexlang
+from sa import dtree, idioms as I, loops as L, prov as P, regexlang
 from sa.report import Unrecognised
 from rules import tokmodel, combos
 
@@ -155,8 +155,22 @@ def rule_layout(ctx, F, TM):
         ctx.violation(rule, f"{fn.path}|missing-shape|{k[0]}-{k[1]}", f"no parser branch produces {k[0]}({k[1]})", fn=fn.path, file=fn.file, line=fn.line)
 
 
-def closure_spec(F, clo_term, parent_spec_of):
-    """analyse a flat_map closure |r| RankPair::V(captured.., r).into_iter().map(|cp| (cp, prob))"""
+def _env_subst(s, clo_ops):
+    """a place read inside a closure, rebuilt in the enclosing function: `(*env.k).f as V ..` -> (captured operand k).f as V .."""
+    s = P.strip(s)
+    if s[0] == "field" and P.strip(s[1]) == ("param", 1) and isinstance(s[2], int) and s[2] < len(clo_ops):
+        return P.strip(clo_ops[s[2]])
+    if s[0] == "field":
+        return ("field", _env_subst(s[1], clo_ops), s[2])
+    if s[0] == "variant":
+        return ("variant", _env_subst(s[1], clo_ops), s[2])
+    return s
+
+
+def closure_spec(F, clo_term, parent_spec_of, variants=None):
+    """analyse a flat_map closure |r| RankPair::V(captured.., r).into_iter().map(|cp| (cp, prob)).  `variants` ({spec of an
+    enum-valued place of the enclosing function: variant name} on the enclosing path) selects the arm of a `match` on a captured
+    rank pair inside the closure (one closure shared by arms that were merged)."""
     if not (clo_term[0] == "agg" and clo_term[1].startswith("closure:")):
         return None
     path = clo_term[1][len("closure:"):]
@@ -164,6 +178,33 @@ def closure_spec(F, clo_term, parent_spec_of):
     if fn is None:
         return None
     pr = P.Prov(fn)
+    if variants is not None and any(b_["term"]["k"] == "switch" for i_, b_ in enumerate(fn.blocks) if i_ in fn.cfg.reachable):
+        try:
+            cpaths, cpr = dtree.enumerate_paths(fn, max_paths=64)
+        except dtree.NotLoopFree:
+            return None
+        keep = []
+        for cp_ in cpaths:
+            if cp_.end != "return":
+                continue
+            ok_ = True
+            for (b_, t_, lab_, ty_, others_) in cp_.conds:
+                if t_[0] != "discr":
+                    return None
+                subj = parent_spec_of(_env_subst(t_[1], clo_term[2]))
+                have = variants.get(subj)
+                if have is None:
+                    return None
+                if lab_ == "otherwise":
+                    if have in {I.variant_by_discr(F, tokmodel.RANK_PAIR, v_) for v_ in others_}:
+                        ok_ = False
+                elif I.variant_by_discr(F, tokmodel.RANK_PAIR, lab_) != have:
+                    ok_ = False
+            if ok_:
+                keep.append(cp_)
+        if len(keep) != 1:
+            return None
+        pr = dtree.PathProv(fn, keep[0])
     ret = P.strip(pr.local(0), calls=False)
     bare = False
     if ret[0] == "call" and ret[1].rsplit("::", 1)[-1] == "map" and len(ret[2]) == 2:
@@ -183,6 +224,8 @@ def closure_spec(F, clo_term, parent_spec_of):
             return "item"
         if s[0] == "field" and P.strip(s[1]) == ("param", 1):
             return parent_spec_of(clo_term[2][s[2]])
+        if s[0] == "field":
+            return parent_spec_of(_env_subst(s, clo_term[2]))
         return "?" + P.show_key(s, 30)
     if rp[0] == "call" and rp[1] in ("std::ops::Fn::call", "std::ops::FnMut::call_mut", "std::ops::FnOnce::call_once") and len(rp[2]) == 2:
         # the rank pair is built by a callable handed to a helper (`expand(range, |r| RankPair::Suited(high, r), w)`): look at
@@ -281,10 +324,35 @@ def rule_expansion(ctx, F):
     }
     found = {}
     cands = []      # (line, ctor, a, b, variant, ops, prob)
-    for bi, t in it.calls():
-        if bi not in it.cfg.reachable or t["callee"].get("name") != "flat_map":
-            continue
-        src = P.strip(pr.operand(t["args"][0]), calls=False)
+    # the flat_map sites, each with the provenance of one path through the function when it is loop-free (arms that were merged
+    # behind a `match` computing (pair, start, end) are then told apart by the path), else flow-insensitively
+    sites = []
+    try:
+        paths_, _pr0 = dtree.enumerate_paths(it, max_paths=400)
+    except dtree.NotLoopFree:
+        paths_ = None
+    if paths_ is None:
+        sites = [(bi, t, pr, None) for bi, t in it.calls() if bi in it.cfg.reachable and t["callee"].get("name") == "flat_map"]
+    else:
+        for p_ in paths_:
+            if p_.end != "return":
+                continue
+            pp_ = None
+            for bi in p_.blocks:
+                t = it.blocks[bi]["term"]
+                if t["k"] == "call" and t["callee"].get("name") == "flat_map":
+                    pp_ = pp_ or dtree.PathProv(it, p_)
+                    vs_ = {}
+                    for (b_, t_, lab_, ty_, others_) in p_.conds:
+                        if t_[0] == "discr" and lab_ != "otherwise":
+                            sp_ = spec(t_[1])
+                            if sp_.endswith(">.0"):
+                                vs_[sp_] = I.variant_by_discr(F, tokmodel.RANK_PAIR, lab_)
+                    sites.append((bi, t, pp_, vs_))
+    seen_ = set()
+    for bi, t, pr_s, vs_ in sites:
+        pr_site = pr_s
+        src = P.strip(pr_site.operand(t["args"][0]), calls=False)
         # RankRange::<ctor>(a, b).into_iter()
         if src[0] == "call" and src[1].endswith("IntoIterator>::into_iter") and src[2]:
             src = P.strip(src[2][0], calls=False)
@@ -292,7 +360,7 @@ def rule_expansion(ctx, F):
             raise Unrecognised(rule, f"flat_map over something else than a RankRange: {P.show(src)[:80]}", it.path, it.blocks[bi]["line"])
         ctor = src[1].rsplit("::", 1)[-1]
         a, b = spec(src[2][0]), spec(src[2][1])
-        cs = closure_spec(F, pr.operand(t["args"][1]), spec)
+        cs = closure_spec(F, pr_site.operand(t["args"][1]), spec, vs_)
         if cs is None:
             raise Unrecognised(rule, "flat_map closure is not |r| RankPair::V(.., r).into_iter().map(|cp| (cp, weight))", it.path, it.blocks[bi]["line"])
         variant, ops, prob = cs
@@ -311,7 +379,10 @@ def rule_expansion(ctx, F):
                             w_ = P.strip(mt[2][1])
                             if w_[0] == "field" and P.strip(w_[1]) == ("param", 1):
                                 prob = spec(mc[2][w_[2]])
-        cands.append((it.blocks[bi]["line"], ctor, a, b, variant, ops, prob))
+        cand_ = (it.blocks[bi]["line"], ctor, a, b, variant, tuple(ops), prob)
+        if cand_ not in seen_:
+            seen_.add(cand_)
+            cands.append((it.blocks[bi]["line"], ctor, a, b, variant, ops, prob))
     # the same expansion written as loops: for r in RankRange::ctor(a, b) { for cp in RankPair::V(.., r) { v.push((cp, w)) } }
     from rules import runpass
     fl_ = L.for_loops(it, pr)
